@@ -88,6 +88,8 @@ def gen_level(rng, engine: str, bounds, lsc: dict | None = None, stack=None, max
     if engine in SEA_FAMILY or engine in ("mwea", "custom_ea", "custom_ea2"):
         lv["mutation_std"] = rmin * rng.choice([0.01, 0.05, 0.25, 1.5])
         lv["p_mutation"] = rng.choice([1.0, 1.0, 0.3])
+        if engine in ("sea", "sea_cx", "ga") and rng.random() < 0.06:
+            lv["p_mutation"] = 0.0  # legal: crossover / selection only
         lv["k_elites"] = rng.randint(1, 3)
         if engine in SEA_FAMILY and rng.random() < 0.08:
             lv["k_elites"] = lv["pop"] + rng.choice([0, 0, 1])  # (mu + mu) plus-selection: every parent is an elite
@@ -269,9 +271,10 @@ def gen_tree_case(rng, prof: dict | None = None) -> dict:
     if sprout["k"] == "nbc" or (sprout["k"] == "custom" and sprout["gen"]["k"] != "best"):
         # NBC truncation must keep >= 2 individuals of every non-leaf population (documented precondition)
         tr = sprout.get("trunc") if sprout["k"] == "nbc" else sprout["gen"]["trunc"]
+        kmin = 1 if p.get("allow_nbc_k1") else 2
         for lv in levels[:-1]:
             if "pop" in lv:
-                while int(lv["pop"] * tr) < 2:
+                while int(lv["pop"] * tr) < kmin:
                     lv["pop"] += 1
     options = {}
     # CMA-ES (clock) and the qmc samplers (OS entropy) are not replayable without a seed: always seed those
@@ -326,6 +329,7 @@ def gen_minimize_case(rng, prof: dict | None = None) -> dict:
         "maxfun": maxfun,
         "maxiter": maxiter,
         "seed": rng.randint(0, 10**6) if rng.random() < 0.8 or p.get("pair") else None,
+        "maxfun_type": rng.choice(["int", "int", "int", "np.int64", "float"]),
         "bounds_as": rng.choice(["array", "list"]),
         "np_seed": rng.randint(0, 2**31 - 1),
         # what minimize() builds internally (for the monitors' look-ups only)
@@ -339,6 +343,10 @@ def gen_minimize_case(rng, prof: dict | None = None) -> dict:
         "options": {},
         "entry": "minimize",
     }
+    if p.get("same_callable_two_boxes"):
+        # the same objective callable is first minimised over another box (which does not contain this one)
+        sh = rng.choice([-0.6, -0.35, 0.35, 0.6])
+        desc["first_box"] = {"cls": box["cls"] + "-shifted", "bounds": [[b[0] + sh * (b[1] - b[0]), b[1] + sh * (b[1] - b[0])] for b in box["bounds"]]}
     if p.get("pair"):
         n1 = rng.choice([1, 3, pop - 1, pop + 2, rng.randint(20, 300)])
         n2 = n1 + rng.choice([1, 2, pop, rng.randint(10, 500)])
